@@ -16,6 +16,7 @@ from typing import Any, Dict, List
 from checks import _c15_gen as gen
 
 SHIM = {"calls": 0, "reordered": 0}
+STREAM_LOG: List[Any] = []  # [glob pattern, [basenames in the order answered]] for listings of a `streams` directory
 _ORIG = {}
 
 
@@ -61,7 +62,13 @@ def install_listing_shim(r: random.Random):
             pass
 
     def glob(*a, **k):
-        return _shuffle(list(_ORIG["glob"](*a, **k)))
+        out = _shuffle(list(_ORIG["glob"](*a, **k)))
+        try:
+            if a and isinstance(a[0], str) and os.path.basename(os.path.dirname(a[0])) == "streams":
+                STREAM_LOG.append([a[0], [os.path.basename(x) for x in out]])
+        except Exception:
+            pass
+        return out
 
     def iglob(*a, **k):
         return iter(_shuffle(list(_ORIG["iglob"](*a, **k))))
@@ -169,6 +176,26 @@ def dump_graph(g, conf, with_hashes: bool) -> Dict[str, Any]:
             if with_hashes:
                 d["hash"] = spec.memoization_hash
                 d["hash_fuzzy"] = spec.memoization_hash_fuzzy
+                # what every reference resolves to in the materialised instance (file / value), the stdout file of
+                # the component and the command line with the references substituted
+                res_ = []
+                for x in spec.dataReferences:
+                    row = [x.absoluteReference]
+                    for fn in (x.location, x.resolve):
+                        try:
+                            row.append(_canon(fn(g)))
+                        except Exception as e:
+                            row.append("EXC %s" % type(e).__name__)
+                    res_.append(row)
+                d["resolved"] = res_
+                try:
+                    d["stdout_path"] = spec.path_to_stdout()
+                except Exception as e:
+                    d["stdout_path"] = "EXC %s" % type(e).__name__
+                try:
+                    d["resolved_arguments"] = spec.resolveArguments()
+                except Exception as e:
+                    d["resolved_arguments"] = "EXC %s" % type(e).__name__
         comps[n] = d
     out["components"] = comps
     concrete = conf.get_flowir_concrete(return_copy=False)
@@ -180,9 +207,13 @@ def dump_graph(g, conf, with_hashes: bool) -> Dict[str, Any]:
     return out
 
 
-def _fake_outputs(exp):
-    """Give every component a deterministic output so that strong hashes of consumers exist too."""
+def _fake_outputs(exp, case=None, r=None):
+    """Give every component a deterministic output so that strong hashes of consumers exist too.  Repeating
+    components listed in case['streams'] additionally get the archived streams a RepeatingEngine leaves behind
+    (streams/<i>.stdout + streams/<i>.stderr, contiguous indices, distinct contents), created in an order drawn
+    from `r`."""
     g = exp.experimentGraph
+    streams = (case or {}).get("streams") or {}
     for n in g.graph.nodes:
         spec = g.graph.nodes[n].get("componentSpecification")
         if spec is None:
@@ -194,6 +225,16 @@ def _fake_outputs(exp):
             for fn in ("out.stdout", "out.txt"):
                 with open(os.path.join(wd, fn), "w") as f:
                     f.write("output of %s %s\n" % (n, fn))
+            if n in streams:
+                first, count = streams[n]
+                sd = os.path.join(wd, "streams")
+                os.makedirs(sd, exist_ok=True)
+                todo = [(i, ext) for i in range(first, first + count) for ext in ("stdout", "stderr")]
+                if r is not None:
+                    r.shuffle(todo)
+                for i, ext in todo:
+                    with open(os.path.join(sd, "%d.%s" % (i, ext)), "w") as f:
+                        f.write("repetition-%d-of-%s-%s\n" % (i, n.replace(".", "_"), ext))
         except Exception:
             pass
     for n in g.graph.nodes:
@@ -260,7 +301,7 @@ def load_and_dump(case: Dict[str, Any], root: str, r: random.Random) -> Dict[str
         pkg = experiment.model.storage.ExperimentPackage.packageFromLocation(m["pkg"], platform=platform)
         exp = experiment.model.data.Experiment.experimentFromPackage(
             pkg, location=inst_root, variable_files=list(given) if given else None, platform=platform)
-        _fake_outputs(exp)
+        _fake_outputs(exp, case, r)
         d = dump_graph(exp.experimentGraph, exp.configuration, with_hashes=True)
         d["top_level_folders"] = sorted(getattr(exp.instanceDirectory, "_top_level_folders", []) or [])
         try:
@@ -292,7 +333,11 @@ def load_and_dump(case: Dict[str, Any], root: str, r: random.Random) -> Dict[str
     record("factory", e_factory)
     record("graph", e_graph)
     record("graph_primitive", e_graph_primitive)
+    del STREAM_LOG[:]
     record("experiment", e_experiment)
+    # monitoring only: in which order this child's file-system shim answered the listings of `streams` directories
+    res["_info"] = json.loads(_scrub(json.dumps({"stream_listings": list(STREAM_LOG)}), subs))
+    del STREAM_LOG[:]
     if not os.environ.get("VERIF_KEEP_TMP"):
         shutil.rmtree(m["pkg"], ignore_errors=True)
         shutil.rmtree(os.path.join(root, "inst-%d" % case["index"]), ignore_errors=True)
